@@ -91,6 +91,25 @@ Proof. unfold read_row_group. io_auto_k ltac:(apply P_read_chunks). Qed.
 Lemma P_open_footer fs : P file_meta (open_footer fs).
 Proof. unfold open_footer. io_auto. Qed.
 
+(** [load_nonempty] is written with explicit matches on the result; each step is
+    convertible to a [bind] of [read_row_group] *)
+Lemma P_load_nonempty fs : forall rgs,
+  P (list value * Z * list row_group)%type (load_nonempty decompress fs rgs).
+Proof.
+  induction rgs as [|rg rest IH].
+  - change (P (list value * Z * list row_group)%type (ret ([], 0%Z, []))).
+    apply (ic_ret P HP).
+  - change (P (list value * Z * list row_group)%type
+              (bind (read_row_group decompress fs rg)
+                    (fun rrecs s' => if (0 <? rg_num_rows rg)%Z
+                                     then ret (rrecs, rg_num_rows rg, rest) s'
+                                     else load_nonempty decompress fs rest s'))).
+    apply (ic_bind P HP); [apply P_read_row_group|].
+    intros rrecs. destruct (0 <? rg_num_rows rg)%Z.
+    + apply (ic_ret P HP).
+    + exact IH.
+Qed.
+
 End Lift.
 
 (** ** The two instances *)
@@ -117,6 +136,8 @@ Lemma sched_indep_read_row_group fs rg : sched_indep (read_row_group decompress 
 Proof. apply (P_read_row_group (@sched_indep) sched_indep_closed). Qed.
 Lemma sched_indep_open_footer fs : sched_indep (open_footer fs).
 Proof. apply (P_open_footer (@sched_indep) sched_indep_closed). Qed.
+Lemma sched_indep_load_nonempty fs rgs : sched_indep (load_nonempty decompress fs rgs).
+Proof. apply (P_load_nonempty (@sched_indep) sched_indep_closed). Qed.
 
 Lemma fault_local_lift {A} (r : result A) : fault_local (lift r).
 Proof. apply (P_lift (@fault_local) fault_local_closed). Qed.
@@ -136,6 +157,8 @@ Lemma fault_local_read_row_group fs rg : fault_local (read_row_group decompress 
 Proof. apply (P_read_row_group (@fault_local) fault_local_closed). Qed.
 Lemma fault_local_open_footer fs : fault_local (open_footer fs).
 Proof. apply (P_open_footer (@fault_local) fault_local_closed). Qed.
+Lemma fault_local_load_nonempty fs rgs : fault_local (load_nonempty decompress fs rgs).
+Proof. apply (P_load_nonempty (@fault_local) fault_local_closed). Qed.
 
 (** ** C08: fragmentation independence of a whole reader life *)
 
@@ -148,12 +171,12 @@ Proof.
     cbn [iterate]; [reflexivity|].
   destruct (rows <=? cursor)%Z; [reflexivity|].
   destruct (rgcount <=? rgcursor)%Z; [|apply IH; exact Heq].
-  destruct rgs as [|rg rest]; [apply IH; exact Heq|].
-  pose proof (sched_indep_read_row_group fs rg s1 s2 Heq) as Hr. unfold res_equiv in Hr.
-  destruct (read_row_group decompress fs rg s1) as [[rrecs1 s1']| |];
-    destruct (read_row_group decompress fs rg s2) as [[rrecs2 s2']| |];
+  pose proof (sched_indep_load_nonempty fs rgs s1 s2 Heq) as Hr. unfold res_equiv in Hr.
+  destruct (load_nonempty decompress fs rgs s1) as [[[[cur1 rgcount1] rgs1] s1']| |];
+    destruct (load_nonempty decompress fs rgs s2) as [[[[cur2 rgcount2] rgs2] s2']| |];
     try contradiction; try reflexivity.
-  destruct Hr as [Hv He]. subst rrecs2. apply IH. exact He.
+  destruct Hr as [Hv He]. injection Hv as Hcur Hcount Hrgs. subst cur2 rgcount2 rgs2.
+  apply IH. exact He.
 Qed.
 
 Lemma read_all_src_equiv fs s1 s2 :
@@ -203,8 +226,7 @@ Proof.
     cbn [iterate]; [apply extends_mk|].
   destruct (rows <=? cursor)%Z; [apply extends_mk|].
   destruct (rgcount <=? rgcursor)%Z; [|eapply extends_step; apply IH].
-  destruct rgs as [|rg rest]; [eapply extends_step; apply IH|].
-  destruct (read_row_group decompress fs rg s) as [[rrecs s']| |];
+  destruct (load_nonempty decompress fs rgs s) as [[[[cur' rgcount'] rgs'] s']| |];
     [eapply extends_step; apply IH | apply extends_mk | apply extends_mk].
 Qed.
 
@@ -220,8 +242,7 @@ Proof.
     cbn [iterate]; [exact Hn|].
   destruct (rows <=? cursor)%Z; [exact Hn|].
   destruct (rgcount <=? rgcursor)%Z; [|apply IH, Hstep, Hn].
-  destruct rgs as [|rg rest]; [apply IH, Hstep, Hn|].
-  destruct (read_row_group decompress fs rg s) as [[rrecs s']| |];
+  destruct (load_nonempty decompress fs rgs s) as [[[[cur' rgcount'] rgs'] s']| |];
     [apply IH, Hstep, Hn | exact Hn | exact Hn].
 Qed.
 
@@ -261,9 +282,8 @@ Proof.
     cbn [iterate]; [left; reflexivity|].
   destruct (rows <=? cursor)%Z; [left; reflexivity|].
   destruct (rgcount <=? rgcursor)%Z; [|apply IH; exact Hs].
-  destruct rgs as [|rg rest]; [apply IH; exact Hs|].
-  pose proof (fault_local_read_row_group fs rg s k Hs) as Hr. unfold fault_rel in Hr.
-  destruct (read_row_group decompress fs rg s) as [[rrecs s']| |].
+  pose proof (fault_local_load_nonempty fs rgs s k Hs) as Hr. unfold fault_rel in Hr.
+  destruct (load_nonempty decompress fs rgs s) as [[[[cur' rgcount'] rgs'] s']| |].
   - destruct Hr as (Hs' & _ & [[Hbad _] | [Hbad _]]); rewrite Hbad.
     + apply IH. exact Hs'.
     + apply fault_outcome_cut. eapply extends_step. apply iterate_extends.
